@@ -265,6 +265,7 @@ def obligations(ctx):
             d = [v for k, v in r3.witness["model"].items() if k.startswith("disc(cap:cmd")]
             r3.witness["what"] += f" (command discriminant {d[0] if d else '?'}: the variant the match does not cover)"
     out += precedence(ctx)
+    out += keyword_case(ctx)
     return out
 
 
@@ -373,4 +374,45 @@ def precedence(ctx):
                 return bad(f"`{unary}` (NOT / primary level) calls the looser rule `{n}` directly: NOT would not bind tighter than AND / OR", e)
         if not any(n == unary for n, _ in calls) or not any(n == top for n, _ in calls):
             return bad(f"`{unary}` has no NOT recursion or no parenthesised alternative")
+    return out
+
+
+def keyword_case(ctx):
+    """grammar actions must not look at the spelling of a keyword they matched case-insensitively"""
+    out = []
+    r = Result("B-6", "keywords are case-insensitive also where a grammar action inspects the matched text: no action of the peg grammars "
+                      "compares captured input with an alphabetic constant by exact string equality (the grammars' own `ci` rule and "
+                      "`eq_ci` are the case-insensitive comparisons); confirmed on the real parser by re-spelling the keywords of sample "
+                      "commands in mixed case")
+    bodies = [f for f in ctx.find("command-parser-commands-") if re.search(r"__parse_\w+-\{closure#\d+\}", f) and "__parse_ci-" not in f]
+    r.functions = [f"{len(bodies)} action closures of the peg grammars"]
+    r.bounds = "call sites of string equality in every action closure"
+    out.append(r)
+    if not bodies:
+        r.status = "inconclusive"
+        r.notes.append("no grammar action closures found")
+        return out
+    r.nontrivial = True
+    hits = []
+    for f in bodies:
+        try:
+            txt = open(f).read()
+        except OSError:
+            continue
+        if not re.search(r"PartialEq.*>::eq|core::str::<impl str>::eq|<str as .*>::eq|::eq\(", txt):
+            continue
+        consts = sorted(set(re.findall(r'const "([A-Za-z]+)"', txt)))
+        if consts:
+            m = re.search(r"(src/[\w/]+\.rs):(\d+)", txt)
+            hits.append((re.sub(r"^.*snel_db\.", "", f)[:90], consts, f"{m.group(1)}:{m.group(2)}" if m else None))
+    if not hits:
+        return out
+    binary = native_binary(ctx.log)
+    rc, line = run_native(binary, ["kwcase"]) if binary else (2, "native replay program did not build")
+    r.witness = {"what": f"grammar action {hits[0][0]} compares matched text with {hits[0][1]} by exact equality: the same command with that "
+                         f"keyword in another case parses to a different command - {line}",
+                 "span": hits[0][2], "call": hits[0][0], "path": [], "model": {}, "native": line}
+    r.status = "violated" if rc == 3 else "inconclusive"
+    if rc != 3:
+        r.notes.append("an exact comparison exists in a grammar action but the sample commands parse identically under mixed-case keywords: " + line)
     return out
